@@ -786,9 +786,6 @@ class C14(Check):
             F += self._static(h, m2, pts2, st["cls"], where)
             if r2 is not None and not F:
                 F += self._tree(h, m2, r2, where)
-            # the receiver still answers for the unmasked graph
-            if not F:
-                F += self._static(g, m, st["pts"], st["cls"], where + "/receiver")
         if not F:
             st.update(g=h, m=m2, pts=pts2, troot=r2, ctor=None)
         return F
